@@ -1,11 +1,15 @@
 import PiqpProofs.Basic
 import PiqpModel.Api
+import Mathlib.Tactic.SplitIfs
 
 /-!
 # C05 — rejected calls leave the solver unchanged and usable
 -/
 
 set_option linter.unusedSectionVars false
+set_option linter.unusedSimpArgs false
+set_option linter.unusedVariables false
+set_option linter.unnecessarySimpa false
 
 namespace Piqp.C05
 
@@ -95,4 +99,71 @@ theorem rejection_transparent (cs : Consts K) (sqrtF : K → K) (poison : K) (ca
       rw [hid]
       exact ih st
 
+/-- the dimension conditions `setup` demands, as a plain predicate of the arguments -/
+def SetupDimsOk (P : RawMat K) (c : RawVec K) (A : Option (RawMat K)) (b : Option (RawVec K))
+    (G : Option (RawMat K)) (h : Option (RawVec K)) (xlb xub : Option (RawVec K)) : Prop :=
+  let n := P.rows
+  let p := match A with | some A => A.rows | none => 0
+  let m := match G with | some G => G.rows | none => 0
+  P.cols = n ∧
+  (match A with | some A => A.cols = n | none => True) ∧
+  (match G with | some G => G.cols = n | none => True) ∧
+  c.data.size = n ∧
+  (match b with | some b => b.data.size = p | none => p = 0) ∧
+  (match h with | some h => h.data.size = m | none => m = 0) ∧
+  (match xlb with | some v => v.data.size = n | none => True) ∧
+  (match xub with | some v => v.data.size = n | none => True)
+
+/-- **classification of `setup` arguments is complete**: the validation accepts exactly the dimension-consistent
+    argument lists (every wrong size of every argument, a missing `b` with `p > 0`, a missing `h` with `m > 0` is rejected,
+    and nothing else is) -/
+theorem validateSetup_none_iff (P : RawMat K) (c : RawVec K) (A : Option (RawMat K)) (b : Option (RawVec K))
+    (G : Option (RawMat K)) (h : Option (RawVec K)) (xlb xub : Option (RawVec K)) :
+    validateSetup P c A b G h xlb xub = none ↔ SetupDimsOk P c A b G h xlb xub := by
+  unfold validateSetup SetupDimsOk
+  simp only
+  constructor
+  · intro hv
+    split_ifs at hv with h1 h2 h3 h4 h5 h6 h7 h8
+    refine ⟨Classical.not_not.mp h1, ?_, ?_, Classical.not_not.mp h4, ?_, ?_, ?_, ?_⟩
+    · cases A with
+      | none => trivial
+      | some A => simpa using h2
+    · cases G with
+      | none => trivial
+      | some G => simpa using h3
+    · cases A <;> cases b <;> simpa using h5
+    · cases G <;> cases h <;> simpa using h6
+    · cases xlb with
+      | none => trivial
+      | some v => simpa using h7
+    · cases xub with
+      | none => trivial
+      | some v => simpa using h8
+  · rintro ⟨h1, h2, h3, h4, h5, h6, h7, h8⟩
+    cases A <;> cases G <;> cases b <;> cases h <;> cases xlb <;> cases xub <;> simp_all
+
+/-- on an accepted argument the typed view of a vector is the caller's array, entry for entry (no padding, no truncation) -/
+theorem toVec_faithful (v : RawVec K) (k : Nat) (h : v.data.size = k) : (v.toVec k).toArray = v.data := by
+  subst h
+  apply Array.ext
+  · simp [RawVec.toVec]
+  · intro i h1 h2
+    simp [RawVec.toVec, Array.getD, h2]
+
+/-- `setup` succeeds exactly on dimension-consistent arguments with at least one variable; every other argument list is
+    rejected (and, by `rejected_is_identity`, changes nothing) -/
+theorem setup_done_iff (cs : Consts K) (sqrtF : K → K) (poison : K) (st : ApiState K) (be : Backend) (pk : PrecKind)
+    (P : RawMat K) (c : RawVec K) (A : Option (RawMat K)) (b : Option (RawVec K))
+    (G : Option (RawMat K)) (h : Option (RawVec K)) (xlb xub : Option (RawVec K)) :
+    (apiStep cs sqrtF poison st (.setup be pk P c A b G h xlb xub)).2 = Outcome.done ↔
+      SetupDimsOk P c A b G h xlb xub ∧ 0 < P.rows := by
+  rw [← validateSetup_none_iff]
+  simp only [apiStep]
+  cases hv : validateSetup P c A b G h xlb xub with
+  | some msg => simp
+  | none =>
+    by_cases hn : 0 < P.rows
+    · simp [hn]
+    · simp [hn]
 end Piqp.C05
